@@ -9,6 +9,7 @@ use vh_common::join;
 
 pub type Idx = BTreeIndex<u64, i64>;
 pub type Oracle = BTreeMap<i64, BTreeSet<u64>>;
+pub type SIdx = BTreeIndex<u64, String>;
 
 pub fn block_on<F: std::future::Future>(f: F) -> F::Output {
     let mut f = std::pin::pin!(f);
@@ -185,6 +186,24 @@ pub struct World {
     /// oracle contents at the last committed flush
     pub committed: Oracle,
     pub now: u64,
+    /// the string-keyed index (prefix queries) and its oracle
+    pub sidx: SIdx,
+    pub soracle: BTreeMap<String, BTreeSet<u64>>,
+}
+
+pub fn hex_str(s: &str) -> String {
+    if s.is_empty() { "-".into() } else { vh_common::hex(s.as_bytes()) }
+}
+
+fn unhex(h: &str) -> Result<String, String> {
+    if h == "-" {
+        return Ok(String::new());
+    }
+    if h.len() % 2 != 0 {
+        return Err("odd hex length".into());
+    }
+    let bytes: Result<Vec<u8>, _> = (0..h.len() / 2).map(|i| u8::from_str_radix(&h[2 * i..2 * i + 2], 16)).collect();
+    String::from_utf8(bytes.map_err(|e| e.to_string())?).map_err(|e| e.to_string())
 }
 
 #[derive(Default)]
@@ -257,17 +276,21 @@ impl World {
     fn real_flush(&mut self, fail_at: Option<usize>) -> FlushRun {
         self.now += 1;
         let log: RefCell<Vec<Wr>> = RefCell::new(Vec::new());
+        // exactly the `fail_at`-th writer invocation fails (whatever the code does afterwards)
+        let calls = std::cell::Cell::new(0usize);
         let res = block_on(self.idx.flush_owned_with(
             self.now,
             |data: Vec<u8>| {
-                let fail = fail_at == Some(log.borrow().len());
+                let fail = fail_at == Some(calls.get());
+                calls.set(calls.get() + 1);
                 if !fail {
                     log.borrow_mut().push(Wr::Meta(data));
                 }
                 std::future::ready(if fail { Err("injected metadata write failure".into()) } else { Ok(()) })
             },
             |o: BucketObject, data: Vec<u8>| {
-                let fail = fail_at == Some(log.borrow().len());
+                let fail = fail_at == Some(calls.get());
+                calls.set(calls.get() + 1);
                 if !fail {
                     log.borrow_mut().push(Wr::Put(o.bucket_id, o.generation, data));
                 }
@@ -331,7 +354,17 @@ pub fn step(w: &mut Option<World>, line: &str) -> Result<Vec<StepObs>, String> {
         }
         let unique = t[1] == "1";
         let overload: usize = t[2].parse().map_err(|_| "overload")?;
-        *w = Some(World { unique, overload, idx: new_index(unique, overload), oracle: Oracle::new(), store: Store::default(), committed: Oracle::new(), now: 1000 });
+        *w = Some(World {
+            unique,
+            overload,
+            idx: new_index(unique, overload),
+            oracle: Oracle::new(),
+            store: Store::default(),
+            committed: Oracle::new(),
+            now: 1000,
+            sidx: SIdx::new("c10s".into(), Some(BTreeConfig { bucket_overload_size: 64, allow_duplicates: true })),
+            soracle: BTreeMap::new(),
+        });
         let mut o = obs("new", &format!("new {}", unique as u8), "ok".into());
         o.hits.push(format!("cfg:unique={}", unique as u8));
         o.hits.push(format!("cfg:overload={overload}"));
@@ -548,6 +581,69 @@ pub fn step(w: &mut Option<World>, line: &str) -> Result<Vec<StepObs>, String> {
                 &show(&exp),
                 &show(&canon),
             )])
+        }
+        "sins" => {
+            arity(3)?;
+            let (d, k) = (nat(t[1])?, unhex(t[2])?);
+            let raw = match w.sidx.insert(d, k.clone(), now) {
+                Ok(b) => format!("ok:{}", b as u8),
+                Err(e) => err_name(&e).to_string(),
+            };
+            let expected = format!("ok:{}", w.soracle.entry(k).or_default().insert(d) as u8);
+            let mut o = obs("sins", line, raw.clone());
+            o.mutated = raw == "ok:1";
+            Ok(vec![o.expect("insert(String)", "insert(id, string key) return value", &expected, &raw)])
+        }
+        "srem" => {
+            arity(3)?;
+            let (d, k) = (nat(t[1])?, unhex(t[2])?);
+            let raw = format!("{}", w.sidx.remove(d, k.clone(), now) as u8);
+            let mut r = false;
+            let mut gone = false;
+            if let Some(s) = w.soracle.get_mut(&k) {
+                r = s.remove(&d);
+                gone = s.is_empty();
+            }
+            if gone {
+                w.soracle.remove(&k);
+            }
+            let o = obs("srem", line, raw.clone());
+            Ok(vec![o.expect("remove(String)", "remove(id, string key) return value", &format!("{}", r as u8), &raw)])
+        }
+        "pq" => {
+            arity(4)?;
+            let stop: Option<u64> = if t[1] == "-" { None } else { Some(nat(t[1])?) };
+            let odd = match t[2] {
+                "all" => false,
+                "odd" => true,
+                _ => return Err("pq: all|odd".into()),
+            };
+            let pre = unhex(t[3])?;
+            let mut calls = 0u64;
+            let res: Vec<(String, Vec<u64>)> = w.sidx.prefix_query_with(&pre, |k, p| {
+                calls += 1;
+                let con = stop.is_none_or(|n| calls < n);
+                let mut ids: Vec<u64> = p.iter().copied().filter(|d| !odd || d % 2 == 1).collect();
+                ids.sort_unstable();
+                (con, if ids.is_empty() { None } else { Some((k.to_string(), ids)) })
+            });
+            let show = |v: &[(String, Vec<u64>)]| if v.is_empty() { "-".to_string() } else { v.iter().map(|(k, ids)| format!("{}={}", hex_str(k), ids_str(ids))).collect::<Vec<_>>().join(";") };
+            let raw = show(&res);
+            // oracle: keys that start with the prefix (std `str::starts_with`), ascending, the first
+            // max(n,1) of them reach the callback
+            let hits: Vec<(&String, &BTreeSet<u64>)> = w.soracle.iter().filter(|(k, _)| k.starts_with(pre.as_str())).collect();
+            let take = stop.map(|n| (n.max(1) as usize).min(hits.len())).unwrap_or(hits.len());
+            let exp: Vec<(String, Vec<u64>)> = hits[..take]
+                .iter()
+                .filter_map(|(k, s)| {
+                    let ids: Vec<u64> = s.iter().copied().filter(|d| !odd || d % 2 == 1).collect();
+                    if ids.is_empty() { None } else { Some(((*k).clone(), ids)) }
+                })
+                .collect();
+            let mut o = obs("pq", line, raw.clone());
+            o.answered = !res.is_empty();
+            o.hits.push(format!("pq:{}", if stop.is_some() { "stop" } else { "all" }));
+            Ok(vec![o.expect("prefix_query_with", "prefix query answer (keys starting with the prefix, ascending, early stop after n callbacks)", &show(&exp), &raw)])
         }
         "dump" => {
             arity(1)?;
